@@ -118,6 +118,16 @@ def main(tier):
                      {"kind": "lockstep-correspondence", "skeleton_problems": problems[:10], "mismatches": mism[:3],
                       "model_stderr": merr[-500:], "go_stderr": gerr[-500:]}, found_input=False)
 
+    # ---- SegmentKeysLock under concurrency: first-use and blocking exclusion (search oracle, chaos mode) ----
+    rounds, gor = (300, 4) if tier == "quick" else (5000, 8)
+    p = subprocess.run([binary, "c14-segkey-stress", str(c.seed), str(rounds), str(gor)], stdout=subprocess.PIPE,
+                       stderr=subprocess.PIPE, text=True, timeout=600, env=GOENV)
+    sres = p.stdout.strip() or ("crash: " + p.stderr[-500:])
+    c.cov["segkey_concurrent_stress"] = {"rounds": rounds, "goroutines": gor, "result": sres[:200]}
+    if sres != "ok":
+        c.report("C14:segkey:concurrent-exclusion", "SegmentKeysLock: " + sres,
+                 {"kind": "stress-run", "result": sres, "how": "h c14-segkey-stress %d %d %d" % (c.seed, rounds, gor)})
+
     # ---- SegmentKeysLock: sequential differential ----
     lines = gen_segkey(c, 500 if tier == "quick" else 20000, 40)
     text = "\n".join(lines) + "\n"
